@@ -118,9 +118,9 @@ def optionFormats : List Format :=
 
 def formats : List Format := [
   ⟨"ipv4", Fmt.ipv4.run, Fmt.ipv4.run⟩,
-  ⟨"ipv6", Fmt.ipv6.run, Parsers.goIPv6⟩,
+  ⟨"ipv6", Fmt.ipv6.run, Netip.ipv6⟩,         -- netip.ParseAddr ∧ Is6 ∧ no zone, parseIPv6 transcribed from the Go source (Model/GoNetip.lean)
   ⟨"cidrv4", Fmt.cidrv4.run, Netip.cidrv4⟩,   -- netip.ParsePrefix ∧ Is4 transcribed from the Go source (Model/GoNetip.lean)
-  ⟨"cidrv6", Fmt.cidrv6.run, Parsers.goCIDRv6⟩,
+  ⟨"cidrv6", Fmt.cidrv6.run, Netip.cidrv6⟩,   -- netip.ParsePrefix ∧ Is6
   ⟨"mac", (Fmt.mac 58).run, (Fmt.mac 58).run⟩,
   ⟨"macdash", (Fmt.mac 45).run, (Fmt.mac 45).run⟩,
   ⟨"base64", Fmt.base64.run, Fmt.base64.run⟩,
